@@ -98,7 +98,10 @@ def run(ctx):
     # the look-up sites are judged by the normalisation argument below, not by the map model
     for e in I.events:
         if e.kind == "panic" and isinstance(e.info, dict) and e.info.get("kind") == "expect":
-            e.kind = "lookup-expect"
+            eb_ = p.bodies.get(e.body) if isinstance(e.body, str) else e.body
+            term_ = eb_.blocks[e.bb]["t"] if (eb_ is not None and e.bb is not None) else None
+            if term_ is not None and _receiver_is_map_get(eb_, term_):
+                e.kind = "lookup-expect"
     harvest("finish")
     # ---- D. load --------------------------------------------------------------------------
     prog = shapes.build(p, "L::compiler::ByteCode")
